@@ -188,6 +188,13 @@ func loadAll(c caseT) {
 					cm, err := object.NewCommit(got)
 					if err == nil && cm != nil {
 						_ = cm.String()
+						// what every command does next with a commit: load its snapshot and its parents
+						if t, err := object.GetObject(root, cm.Tree); err == nil && t != nil {
+							object.NewTree(root, t)
+						}
+						for _, p := range cm.Parents {
+							object.GetObject(root, p)
+						}
 					}
 				})
 			}
